@@ -372,6 +372,16 @@ def entryGuardRound (env : Env) (current pending : Tr) : Step :=
   deliver env .entryGuard 255 current pending ⋙
   (fun s => if s.cancelled then (s, []) else deliver env .entryGuard s.core.requested current pending s)
 
+/-- number of iterations the loop header `for (Long i = start; i < / <= SUBSTITUTION_LIMIT && request; ++i)`
+    allows; `start` and the comparison are translated from the source on every run -/
+def substFuel (L : Nat) : Nat :=
+  if Gen.substLoopInclusive then L + 1 - Gen.substLoopStart else L - Gen.substLoopStart
+
+/-- does that header terminate in `Long = uint8_t` arithmetic when the request never goes away?
+    (`i <= 255` is always true for a `uint8_t`) -/
+def substLoopTerminates (L : Nat) : Bool :=
+  !(Gen.substLoopInclusive && L + 1 ≥ 2 ^ Gen.bitsLong)
+
 /-- the `for (i < SUBSTITUTION_LIMIT && request)` loop shared by `processTransitions`
     (`round = guardRound`) and `initialEnter` (`round = entryGuardRound`); threads `current` -/
 def substLoop (round : Tr → Tr → Step) : Nat → Tr → St → (St × Tr) × List Ev
@@ -390,38 +400,38 @@ def substLoop (round : Tr → Tr → Step) : Nat → Tr → St → (St × Tr) ×
         substLoop round fuel current { s with core := { s.core with request := s.core.request.clear } }
     else ((s, current), [])
 
-/-- `R_::processTransitions` + the tail of `processRequest` -/
+/-- `if (currentTransition) { registry.requested = destination (F1 repair); deepChangeToRequested }` -/
+def applySurvivor (env : Env) (current : Tr) : Step := fun s =>
+  if current.valid then
+    (modifyCore (fun c => { c with requested := current.dest }) ⋙ changeToRequested env current) s
+  else (s, [])
+
+/-- `registry.clearRequests()` and `previousTransition = currentTransition` -/
+def finishProcessing (env : Env) (current : Tr) : Step :=
+  modifyCore (fun c => { c with requested := 255, prev := if env.cfg.history then current else c.prev })
+
+/-- `R_::processRequest` / `R_::processTransitions` -/
 def processRequest (env : Env) : Step := fun s =>
   if s.core.request.valid then
-    let r := substLoop (guardRound env) env.cfg.L {} s
-    let s1 := r.1.1
-    let current := r.1.2
-    let r2 : St × List Ev :=
-      if current.valid then
-        (modifyCore (fun c => { c with requested := current.dest }) ⋙ changeToRequested env current) s1
-      else (s1, [])
-    let s2 := r2.1
-    let c2 := s2.core
-    let c3 : Core := { c2 with requested := 255, prev := if env.cfg.history then current else c2.prev }
-    ({ s2 with core := c3 }, r.2 ++ r2.2)
-  else
-    ({ s with core := { s.core with prev := if env.cfg.history then {} else s.core.prev } }, [])
+    let r := substLoop (guardRound env) (substFuel env.cfg.L) {} s
+    let r2 := (applySurvivor env r.1.2 ⋙ finishProcessing env r.1.2) r.1.1
+    (r2.1, r.2 ++ r2.2)
+  else finishProcessing env {} s
+
+/-- tail of `R_::initialEnter`: history, the F1 repair of `requested`, `deepEnter`, `clearRequests` -/
+def enterSurvivor (env : Env) (current : Tr) : Step :=
+  modifyCore (fun c => { c with prev := if env.cfg.history then current else c.prev,
+                                requested := if current.valid then current.dest else 0 }) ⋙
+  deepEnter env current ⋙
+  modifyCore (fun c => { c with requested := 255 })
 
 /-- `R_::initialEnter` -/
 def initialEnter (env : Env) : Step := fun s =>
-  let ar := applyRequest {} 0 s.core
-  let s0 := { s with core := ar.1 }
+  let s0 := { s with core := (applyRequest {} 0 s.core).1 }
   let r0 := entryGuardRound env {} {} s0          -- result ignored
-  let r := substLoop (entryGuardRound env) env.cfg.L {} r0.1
-  let s1 := r.1.1
-  let current := r.1.2
-  let c1 := s1.core
-  let c2 : Core := { c1 with prev := if env.cfg.history then current else c1.prev,
-                             requested := if current.valid then current.dest else 0 }
-  let r3 := deepEnter env current { s1 with core := c2 }
-  let s3 := r3.1
-  let c3 := s3.core
-  ({ s3 with core := { c3 with requested := 255 } }, r0.2 ++ r.2 ++ r3.2)
+  let r := substLoop (entryGuardRound env) (substFuel env.cfg.L) {} r0.1
+  let r3 := enterSurvivor env r.1.2 r.1.1
+  (r3.1, r0.2 ++ r.2 ++ r3.2)
 
 /-- `PlanDataT::clear()` -/
 def planDataClear (c : Core) : Core :=
